@@ -358,7 +358,8 @@ func translateFunc(fi *finfo) *leanFn {
 	} else {
 		fmt.Fprintf(&sb, "%s%s\n", ind, final)
 	}
-	lf.text = sb.String()
+	lf.text = prelude + sb.String()
+	prelude = ""
 	return lf
 }
 
@@ -706,7 +707,8 @@ func (e *env) resultsLoop(rs *ast.RangeStmt, pbName string) {
 	bind := ts.Assign.(*ast.AssignStmt).Lhs[0].(*ast.Ident).Name
 	elT := leanType(sub.vars[dstKey])
 	var b strings.Builder
-	fmt.Fprintf(&b, "let rs ← %s.mapM (fun x => do\n", coll)
+	fmt.Fprintf(&b, "/-- The body of the loop over `m.Results` in encodeQueryResponse: one result by its dynamic type. -/\n")
+	fmt.Fprintf(&b, "def encodeQueryResult (x : P.Result) : Outcome %s :=\n  do\n", elT)
 	fmt.Fprintf(&b, "      let e : %s := {}\n      match x with\n", elT)
 	hasDefault := false
 	for _, c := range ts.Body.List {
@@ -739,9 +741,10 @@ func (e *env) resultsLoop(rs *ast.RangeStmt, pbName string) {
 	if !hasDefault {
 		e.fail(ts, "type switch without default")
 	}
-	fmt.Fprintf(&b, "      | _ => throw (.panic \"encodeQueryResponse: unknown result type\"))")
+	fmt.Fprintf(&b, "      | _ => throw (.panic \"encodeQueryResponse: unknown result type\")\n\n")
 	_ = k
-	e.emit(b.String())
+	prelude += b.String()
+	e.emit(fmt.Sprintf("let rs ← %s.mapM encodeQueryResult", coll))
 	sd := structOf(e.vars[pbName])
 	f := sd.field("Results")
 	e.setField(pbName, f, "rs")
@@ -755,6 +758,9 @@ func elemOf(t *gtype) *gtype {
 	}
 	return el
 }
+
+// prelude: auxiliary definitions emitted before the function being translated
+var prelude string
 
 func mustParseExpr(s string) ast.Expr {
 	x, err := parseExprString(s)
